@@ -37,6 +37,9 @@ func needed(b []byte) int {
 		return 12
 	}
 	isExt := func(x byte) bool { return x == 200 || x == 201 }
+	if h < 12 {
+		return 12
+	}
 	if !isExt(b[4]) {
 		return h
 	}
@@ -415,7 +418,20 @@ func stunMut(rng *rand.Rand) ([]byte, string) {
 func main() {
 	out := flag.String("out", "trace.ndjson", "output trace")
 	n := flag.Int("n", 20000, "number of random inputs (on top of the exhaustive single-field families)")
+	one := flag.String("hex", "", "process this single input (hex) and print what the router emits")
+	oneVia := flag.Int("via", 0, "ingress for -hex")
+	oneAuth := flag.Bool("auth", false, "SCMP authentication for -hex")
 	flag.Parse()
+	if *one != "" {
+		raw, err := hex.DecodeString(*one)
+		if err != nil {
+			vt.Fatal("bad hex: %v", err)
+		}
+		o := process(newDP(*oneAuth), input{raw, uint16(*oneVia), *oneAuth, "cli"})
+		fmt.Printf("kind=%s len=%d needed=%d panic=%q msg=%q\nout=%s\n", o.kind, len(o.out), needed(o.out), o.panic, o.msg,
+			hex.EncodeToString(o.out))
+		return
+	}
 	rng := vt.Rand(8)
 	f := &fuzzer{w: vt.NewWriter(*out), seen: map[[32]byte]bool{}, stats: map[string]int{}, pan: map[string]int{}}
 	f.dps[0], f.dps[1] = newDP(false), newDP(true)
